@@ -133,6 +133,19 @@ def run_op(pf, op, shared=None):
         b = pickle.dumps(pf)
         pf2 = pickle.loads(b)
         return [pf2.to_pandas(**_kw(op)), pf2.count(), canon(pf2.statistics), len(pf2.row_groups)]
+    if k == "stats_fn":              # the module-level functions that take the handle are part of "statistics" use
+        from fastparquet import api
+        return canon(api.statistics(pf))
+    if k == "sorted_cols":
+        from fastparquet import api
+        return canon(api.sorted_partitioned_columns(pf, filters=_filters(op.get("filters")) or None))
+    if k == "filter_rgs":
+        from fastparquet import api
+        return [int(i) for i in api.filter_row_groups(pf, _filters(op.get("filters")), as_idx=True)]
+    if k == "meta":                  # the memoised metadata views of the handle
+        return [sha(repr(sorted((str(a), str(b)[:200]) for a, b in pf.key_value_metadata.items())))[:16],
+                sha(repr(canon(pf.pandas_metadata)))[:16], canon(pf.categories), bool(pf.has_pandas_metadata), str(pf)[:200],
+                canon(pf.info), {str(a): str(b) for a, b in pf.dtypes.items()} if hasattr(pf, "dtypes") and isinstance(getattr(pf, "dtypes", None), dict) else None]
     if k == "schema_text":           # the rendering of the schema (memoised on the helper shared with derived handles)
         return [pf.schema.text, str(pf[0:1].schema) if len(pf.row_groups) else ""]
     if k == "rebuild":               # what ParquetFile.__getitem__ did on the pinned tree for every derived handle
@@ -759,14 +772,21 @@ def trace_footprint(pf, op, shared=None, root=None, full_every=FULL_EVERY, opcod
                     scr_over[0] += 1
             last_scr[0] = sc
 
-    prev = ["?", 0]           # the line event before this one: the statement that performed a write seen now
+    prev = ["?", 0]           # the line event before this one: the statement that performed a write seen now ...
+    frame_last = {}           # ... or, when a callee has just returned, the pending statement of the frame returned into
 
     def on_line(frame):
         n[0] += 1
         sg = fast_sig(conts[0])
+        fid = id(frame)
         if sg != last_sig[0] or n[0] % full_every == 0:
-            full("%s:%d@%d|%s:%d" % (os.path.basename(frame.f_code.co_filename), frame.f_lineno or 0, n[0], prev[0], prev[1]))
+            pend = frame_last.get(fid)
+            full("%s:%d@%d|%s:%d|%s:%d" % (os.path.basename(frame.f_code.co_filename), frame.f_lineno or 0, n[0], prev[0], prev[1],
+                                           os.path.basename(frame.f_code.co_filename), pend if pend is not None else 0))
         prev[0], prev[1] = os.path.basename(frame.f_code.co_filename), frame.f_lineno or 0
+        frame_last[fid] = prev[1]
+        if len(frame_last) > 4000:
+            frame_last.clear()
         if cover is not None:
             cover.add((prev[0], prev[1]))
     tr = make_tracer(prefix, on_line, opcodes)
@@ -795,14 +815,17 @@ PATTERN_CODE = {"check_then_act": 0, "idem_store": 1, "augmented": 2, "rmw": 3, 
 
 
 def tag_prev(tag):
-    """(file, line) of the statement executed right before the event at which a change was seen"""
-    if "|" not in tag:
-        return None
-    f, _, ln = tag.split("|", 1)[1].rpartition(":")
-    try:
-        return f, int(ln)
-    except ValueError:
-        return None
+    """candidate statements for a change seen at an event: [(file, line)] = the line event executed right before it, and
+    the pending statement of the frame the event belongs to (a store performed after a callee returned)"""
+    out = []
+    for part in tag.split("|")[1:]:
+        f, _, ln = part.rpartition(":")
+        try:
+            if int(ln) > 0:
+                out.append((f, int(ln)))
+        except ValueError:
+            pass
+    return out
 
 
 def site_index(inv):
@@ -814,14 +837,16 @@ def site_index(inv):
 
 def site_for(idx, loc):
     """the write site a (file, line) belongs to: narrowest statement range containing the line; stores before calls"""
-    if loc is None:
+    if not loc:
         return None
     best = None
-    for s_ in idx.get(loc[0], ()):
-        if s_["line"] <= loc[1] <= s_["end_line"]:
-            key = (s_["end_line"] - s_["line"], 0 if s_["pattern"] != "mutcall" else 1)
-            if best is None or key < best[0]:
-                best = (key, s_)
+    for ci, (f, ln) in enumerate(loc if isinstance(loc, list) else [loc]):
+        for s_ in idx.get(f, ()):
+            if s_["line"] <= ln <= s_["end_line"]:
+                # a store statement before a mutating call; the narrowest statement; the earlier candidate
+                key = (0 if s_["pattern"] != "mutcall" else 1, ci, s_["end_line"] - s_["line"])
+                if best is None or key < best[0]:
+                    best = (key, s_)
     return best[1] if best else None
 
 
